@@ -22,6 +22,7 @@ Every step is compared with the reference semantics of a transparent, efficient 
 from __future__ import annotations
 
 import ast
+import os
 import copy as _copy
 from collections import Counter, deque
 
@@ -483,13 +484,9 @@ def rule(rep, program: Program, tier: str, prop: str, rule_id: str, side: str):
     r = rep.rule(rule_id, title, floor=len(GROUPS))
     from ..absexec import Unsupported as _Unsupported
 
-    cache = getattr(program, "_stateproto_cache", None)
-    if cache is None:
-        try:
-            cache = explore_all(program, 3000 if tier != "thorough" else 150000)
-        except _Unsupported as exc:
-            cache = exc
-        program._stateproto_cache = cache
+    program._tier = tier
+    closure(program)
+    cache = program._stateproto_cache
     if isinstance(cache, Exception):
         for grp, n in GROUPS:
             r.inst({"methods": grp, "systems": n, "explored": f"no - mici/states.py is outside the abstract executor's subset ({cache}); the structural rules R3-R6 decide alone"}, exercised=False)
@@ -504,4 +501,51 @@ def rule(rep, program: Program, tier: str, prop: str, rule_id: str, side: str):
                 continue
             seen.add(key)
             r.violate(prop, f"ChainState-protocol:{key}", f"{msg}; shortest history: {hist}", node=None, file=str(st.path), history=hist)
+    return r
+
+
+def _category(hist: str) -> str:
+    if "systemB" in hist:
+        return "two-systems"
+    if "unpickle(" in hist:
+        return "pickle"
+    if ".copy(" in hist:
+        return "copy"
+    return "assign"
+
+
+def closure(program: Program):
+    """The exploration records for `program` (cached), or None when states.py is outside the executor's subset."""
+    cache = getattr(program, "_stateproto_cache", None)
+    if cache is None:
+        from ..absexec import Unsupported as _Unsupported
+
+        tier = getattr(program, "_tier", "quick")
+        try:
+            cache = explore_all(program, int(os.environ.get("MVERIF_STATEPROTO_CAP", "1500")) if tier != "thorough" else 150000)
+        except _Unsupported as exc:
+            cache = exc
+        program._stateproto_cache = cache
+    return None if isinstance(cache, Exception) else cache
+
+
+def category_rule(rep, program: Program, prop: str, rule_id: str, title: str, side: str, categories):
+    """A structural rule of the ChainState protocol decided by the closure instead (when it is available):
+    reports the closure's findings of the given side whose shortest history falls in `categories`.
+    -> the rule object, or None when the closure is unavailable (the caller runs its structural analysis)."""
+    recs = closure(program)
+    if recs is None:
+        return None
+    r = rep.rule(rule_id, title + " [decided by the closure of the ChainState protocol over the token domain; the structural analysis is the fallback]", floor=1)
+    st = next(mm for nm, mm in program.modules.items() if nm.split(".")[-1] == "states")
+    seen = set()
+    n = 0
+    for rec in recs:
+        for sd, key, msg, hist in rec["findings"]:
+            if sd != side or _category(hist) not in categories or key in seen:
+                continue
+            seen.add(key)
+            n += 1
+            r.violate(prop, f"ChainState-protocol:{key}", f"{msg}; shortest history: {hist}", node=None, file=str(st.path), history=hist)
+    r.inst({"decided by": "protocol closure", "groups": len(recs), "configurations": sum(rec["configurations"] for rec in recs), "categories": sorted(categories), "findings": n})
     return r
